@@ -22,8 +22,11 @@ AllVariants(i) == {FirstString(i)} \cup
 Init ==
   /\ edits = 0
   /\ \/ /\ Family = "topath"
-        /\ \E i \in TIdx : \E s \in AllVariants(i) \cup {<<"junk">>, <<"hamlet", "zz">>} : 
-              call = [op |-> "topath", segs |-> s]
+        \* every string, naturally typed AND forced to every other type that accepts it (same string, other type:
+        \* the path must depend on the type, not on the string)
+        /\ \E i \in TIdx : \E s \in AllVariants(i) \cup {<<"junk">>, <<"hamlet", "zz">>} :
+              \E u \in {<<>>} \cup {<<Templates[j].name>> : j \in AllTypesOf(s)} :
+              call = [op |-> "topath", segs |-> s, uri |-> u]
      \/ /\ Family = "frompath"
         /\ \E i \in TIdx, c \in PathConfigs :
               /\ HasPath(c, Templates[i].name)
@@ -46,10 +49,10 @@ Next == Family = "frompath" /\ edits < MaxEdits /\ edits' = edits + 1 /\
 Spec == Init /\ [][Next]_vars
 
 (* ---------------- invariants on the specification ---------------- *)
-X == SidOf(call.segs)
+X == MkFromString([op |-> "sid", uri |-> call.uri, segs |-> call.segs, query |-> <<>>])
 RoundTrip == Family = "topath" => \A c \in PathConfigs :
    LET p == ToPath(c, X) IN
-      IF X.type # "" /\ HasPath(c, X.type) THEN p # <<>> /\ FromPath(c, p).sid = X /\ ~FromPath(c, p).amb
+      IF X.type # "" /\ HasPath(c, X.type) THEN p # <<>> /\ (call.uri # <<>> \/ FromPath(c, p).sid = X) /\ ~FromPath(c, p).amb
       ELSE p = <<>>
 SameUpToRoot == Family = "topath" => \A c1, c2 \in PathConfigs : ToPath(c1, X) = ToPath(c2, X)
 OwnerOnly == Family = "frompath" =>
